@@ -94,6 +94,7 @@ class _Pre:
         self.state = dict((self.cls or {}).get('state', {}))
         self.user_exc = dict((self.cls or spec).get('user_exc', {}))
         self.self_name = fdef.args.args[0].arg if (spec.get('method') and fdef.args.args) else None
+        self._exc_vars = set()
 
     def note(self, what):
         self.notes.add('c13:' + what)
@@ -122,7 +123,9 @@ class _Pre:
             ok = len(c.bases) == 1 and isinstance(c.bases[0], ast.Name) and c.bases[0].id == d['base'] \
                 and not c.keywords and not c.decorator_list and all(
                     isinstance(b, ast.Pass) or (isinstance(b, ast.Expr) and isinstance(b.value, ast.Constant))
-                    for b in c.body)
+                    or (isinstance(b, ast.Assign) and isinstance(b.value, ast.Constant) and all(
+                        isinstance(t, ast.Name) and not t.id.startswith('__') for t in b.targets))
+                    for b in c.body)          # no methods: constructing / raising it does what the base class does
             if not ok or d['base'] not in py2lean.EXC_NAMES or self._module_rebinds(d['base']):
                 raise Unsupported(c, 'exception class %s is not a plain subclass of %s' % (name, d['base']))
             if _stores(self.f, name):
@@ -247,7 +250,7 @@ class _Pre:
                             and st.value.func.id in self.user_exc and not st.value.keywords):
                         continue
                     v = st.targets[0].id
-                    if _stores(self.f, v) != 1:
+                    if st not in body:
                         continue
                     i = body.index(st)
                     j = i + 1
@@ -256,11 +259,16 @@ class _Pre:
                             and isinstance(body[j].targets[0].value, ast.Name) and body[j].targets[0].value.id == v \
                             and isinstance(body[j].value, (ast.Name, ast.Constant)):
                         j += 1
-                    uses = [x for x in ast.walk(self.f) if isinstance(x, ast.Name) and x.id == v]
                     if j < len(body) and isinstance(body[j], ast.Raise) and isinstance(body[j].exc, ast.Name) \
-                            and body[j].exc.id == v and body[j].cause is None and len(uses) == 1 + (j - i - 1) + 1:
+                            and body[j].exc.id == v and body[j].cause is None:
+                        # the object is created, given attributes and raised on the spot: no other statement of the
+                        # function can see it (checked below: no occurrence of the name is left)
                         body[i:j + 1] = [ast.copy_location(ast.Raise(exc=st.value, cause=None), body[j])]
                         self.note('exc-object')
+                        self._exc_vars.add(v)
+        for x in ast.walk(self.f):
+            if isinstance(x, ast.Name) and x.id in self._exc_vars:
+                raise Unsupported(x, 'an exception object that is used besides being raised')
 
     def _rewrite_raises(self, stmts, handler_tag=None, handler_base=None):
         """user-defined `raise U(...)` -> tag assignment + `raise Base`; a bare `raise` inside the handler of a
@@ -343,7 +351,7 @@ class _Pre:
             seen.add(base)
 
     def p_exceptions(self):
-        if not self.user_exc:
+        if not self.user_exc or not any(isinstance(n, ast.Name) and n.id in self.user_exc for n in ast.walk(self.f)):
             return
         self._check_user_exc()
         self.p_exc_objects()
